@@ -109,7 +109,7 @@ def c03 (op : String) (args : List String) (impl : String) : Verdict :=
         ("one_result_per_call", decide (toks.length = n))]
     | none => bad "newstream-n"
   | "new", [code, secret] =>
-    let model := s!"ok {code} {secret} - fresh"
+    let model := s!"ok {code} {if secret == "~" then "-" else secret} - fresh"   -- (`~`: an empty secret that is not nil)
     mk impl model [noCrash impl, ("new_packet_fields_and_fresh_randomness", impl == model)]
   | _, _ => bad s!"op:{op}"
 
